@@ -16,11 +16,13 @@ AD(n) == [n |-> n, ty |-> "S"]
 NoRange == [some |-> FALSE, n |-> "", ty |-> ""]
 RangeR == [some |-> TRUE, n |-> "r", ty |-> "S"]
 Gsi(thr) == [name |-> "gix", hash |-> "g", range |-> [some |-> FALSE, n |-> ""], proj |-> "ALL", thr |-> thr]
+\* a GLOBAL index on the table's own partition key (with another sort key): global it is, whatever it looks like
+Hgx == [name |-> "hgx", hash |-> "h", range |-> [some |-> TRUE, n |-> "g"], proj |-> "ALL", thr |-> FALSE]
 Lsi == [name |-> "lix", hash |-> "h", range |-> [some |-> TRUE, n |-> "g"], proj |-> "KEYS_ONLY"]
 
 Creates(c, t) == {
   AddTable(c, t, "h", ""),
-  CT(c, t, "PAY_PER_REQUEST", FALSE, <<AD("h"), AD("r"), AD("g")>>, RangeR, <<Gsi(FALSE)>>, <<Lsi>>),
+  CT(c, t, "PAY_PER_REQUEST", FALSE, <<AD("h"), AD("r"), AD("g")>>, RangeR, <<Gsi(FALSE), Hgx>>, <<Lsi>>),
   CT(c, t, "PROVISIONED", TRUE, <<AD("h"), AD("g")>>, NoRange, <<Gsi(TRUE)>>, <<>>)
 }
 BadCreates(c, t) == {
